@@ -5,7 +5,9 @@ package file
 // rules when the file is removed" is checked on the real RefreshableFileDataSource with the real flow rule manager:
 // every sequence of at most N events over {write A, write B, truncate to empty, write malformed JSON}, followed by a
 // rename-away or a remove. After each event the rules in force must converge (within 5 s) to the model
-// "valid rules of the last decodable content" (a malformed write keeps the previous rules; empty clears).
+// "valid rules of the last decodable content" (a malformed write keeps the previous rules; empty clears). After a
+// rename-away (short histories only, it costs a second each) a new file is created at the path: its content must be
+// picked up without a further write.
 // Bounded (N = VERIF_BOUND), not a proof; convergence is observed by polling.
 
 import (
@@ -148,6 +150,23 @@ func TestVerifBounded(t *testing.T) {
 		}
 		if !c18Await(nil) {
 			fail("check=file-%s-clears history=%s: in force %v, expected none", end, trace, c18InForce())
+			return
+		}
+		if end == "rename-away" && len(seq) <= 1 {
+			// a new file appears at the watched path (log rotation, atomic replace): the datasource re-attaches its
+			// watcher (it retries once a second) and must converge to the new file's content without a further write
+			trace += " recreate(B)"
+			if err := os.WriteFile(path, pb, 0o644); err != nil {
+				t.Fatal(err)
+			}
+			if !c18Await(wantB) {
+				fail("check=file-converges-after-recreation history=%s: in force %v, expected %v", trace, c18InForce(), wantB)
+				return
+			}
+			os.Remove(path)
+			if !c18Await(nil) {
+				fail("check=file-remove-clears history=%s remove: in force %v, expected none", trace, c18InForce())
+			}
 		}
 	}
 	var rec func(seq []int)
